@@ -11,15 +11,23 @@ REPLAYS = os.path.join(VERIF, 'replays')
 EXIT_OK, EXIT_VIOLATION, EXIT_UNDECIDED = 0, 1, 2
 
 
-def sh(cmd, cwd=None, env=None, timeout=None, stdin=None):
+def sh(cmd, cwd=None, env=None, timeout=None, stdin=None, mem_gb=None):
     e = dict(os.environ)
     e.update({'CARGO_NET_OFFLINE': 'true'})
     if env:
         e.update(env)
     t0 = time.time()
+    pre = None
+    if mem_gb:
+        def pre():
+            # address-space limit inherited by every child (each CBMC process): a runaway solver is
+            # reported as out-of-memory (undecided) instead of taking the machine down
+            import resource
+            lim = int(mem_gb * (1 << 30))
+            resource.setrlimit(resource.RLIMIT_AS, (lim, lim))
     try:
         p = subprocess.run(cmd, cwd=cwd, env=e, stdout=subprocess.PIPE, stderr=subprocess.PIPE,
-                           timeout=timeout, input=stdin, text=True, errors='replace')
+                           timeout=timeout, input=stdin, text=True, errors='replace', preexec_fn=pre)
         return p.returncode, p.stdout, p.stderr, time.time() - t0
     except subprocess.TimeoutExpired as ex:
         out = ex.stdout.decode(errors='replace') if isinstance(ex.stdout, bytes) else (ex.stdout or '')
